@@ -113,6 +113,29 @@ def _ulist(elem, lo=0, hi=3):
     return st.lists(elem, min_size=lo, max_size=hi, unique=True)
 
 
+def _with_repeats(base, extra):
+    out = list(base)
+    for src, pos in extra:
+        if not out:
+            break
+        out.insert(pos % (len(out) + 1), out[src % len(out)])
+    return out
+
+
+@cached
+def _mlist(elem, lo=0, hi=3):
+    """Ordered list in which a value may occur more than once: a unique base
+    list plus, every other time, one or two copies of its own elements put at
+    any position (adjacent `-v -v` as well as apart `--env A --env B`).  No
+    JSON schema of the admin objects has uniqueItems and no caller
+    de-duplicates (cli.LIST is a plain split, REST passes the array on)."""
+    extra = st.lists(st.tuples(_ints(0, 7), _ints(0, 7)),
+                     min_size=1, max_size=2)
+    none = st.just(())
+    return st.builds(_with_repeats, _ulist(elem, lo, hi),
+                     st.one_of(none, extra))
+
+
 @cached
 def _one_of(*strats):
     return st.one_of(*strats)
@@ -1191,11 +1214,15 @@ def _json_container():
 @st.composite
 def zk_payload_case(draw):
     first = draw(_json_container())
-    mode = draw(_pick('indep', 'same', 'tweak'))
+    mode = draw(_pick('indep', 'indep', 'same', 'same', 'tweak', 'tweak',
+                      'listvar'))
     if mode == 'indep':
         second = draw(_json_container())
     elif mode == 'same':
         second = copy.deepcopy(first)
+    elif mode == 'listvar':
+        # same payload but for the multiplicity / order of one list
+        second = _list_variant(draw, first)
     else:
         second = copy.deepcopy(first)
         extra = draw(_json_values())
@@ -1371,6 +1398,14 @@ def _joined(fmt, *strats):
 
 
 @cached
+def _arg():
+    """One element of the command line of a docker app (app.json `args`: any
+    string; runtime/docker passes the list on as the container command)."""
+    return _one_of(_text1(), _pick('-v', '--env', 'A=1', 'B=2', '--publish',
+                                   '80', '443', '0', '1', '--', '-'))
+
+
+@cached
 def _ticket():
     return _joined('%s@%s', _txt(WORD_DASH, 1, 5), _txt(WORD + '.', 1, 8))
 
@@ -1409,7 +1444,12 @@ def _tenant():
 
 @cached
 @st.composite
-def ldap_app_value(draw):
+def ldap_app_value(draw, multi=False):
+    """``multi``: plain lists may carry a value more than once (entry-level
+    round trips); the modify-list codecs keep unique values because the
+    directory they model stores the values of one attribute as a set."""
+    # one object in four has lists with repeated values
+    lst = _mlist if multi and draw(_ints(0, 3)) == 0 else _ulist
     obj = {}
     if draw(_ints(0, 4)) == 0:
         obj['_id'] = draw(_app_id())
@@ -1421,20 +1461,20 @@ def ldap_app_value(draw):
         'native:', 'docker://repo/img:1.0', 'http://host/x.tar',
         'file:///a/b c'))
     _maybe(draw, obj, 'command', _text1(20))
-    _maybe(draw, obj, 'args', _ulist(_text1(), 0, 4))
-    _maybe(draw, obj, 'tickets', _ulist(_ticket()))
-    _maybe(draw, obj, 'keytabs', _ulist(_keytab()))
-    _maybe(draw, obj, 'features', _ulist(_txt(WORD_DASH, 1, 6)))
+    _maybe(draw, obj, 'args', lst(_arg(), 0, 4))
+    _maybe(draw, obj, 'tickets', lst(_ticket()))
+    _maybe(draw, obj, 'keytabs', lst(_keytab()))
+    _maybe(draw, obj, 'features', lst(_txt(WORD_DASH, 1, 6)))
     _maybe(draw, obj, 'identity_group', _joined(
         '%s.%s', _txt(WORD_DASH, 1, 6), _txt(WORD_DASH, 1, 6)))
     for key in ('shared_ip', 'shared_network', 'schedule_once'):
         _maybe(draw, obj, key, _BOOL)
     _maybe(draw, obj, 'passthrough',
-           _ulist(_one_of(_hostname(), _ip())))
+           lst(_one_of(_hostname(), _ip())))
     _maybe(draw, obj, 'ephemeral_ports', _ephemeral(), none_ok=False)
     _maybe(draw, obj, 'data_retention_timeout', _interval())
     _maybe(draw, obj, 'lease', _interval())
-    _maybe(draw, obj, 'traits', _ulist(_txt(WORD_DASH, 1, 6)))
+    _maybe(draw, obj, 'traits', lst(_txt(WORD_DASH, 1, 6)))
 
     big = draw(_pick('services', 'endpoints', 'environ', None, None))
 
@@ -1486,10 +1526,10 @@ def ldap_app_value(draw):
     if draw(_ints(0, 9)) > 5:
         patterns = _uniq(draw, _text1(10), draw(_ints(0, 3)))
         obj['vring'] = {
-            'cells': draw(_ulist(_txt(LOWER_HOST + '-', 1, 6))),
+            'cells': draw(lst(_txt(LOWER_HOST + '-', 1, 6))),
             'rules': [
                 {'pattern': pat,
-                 'endpoints': draw(_ulist(_txt(WORD_DASH, 1, 6), 1, 3))}
+                 'endpoints': draw(lst(_txt(WORD_DASH, 1, 6), 1, 3))}
                 for pat in patterns],
         }
 
@@ -1503,7 +1543,9 @@ def ldap_app_value(draw):
 
 @cached
 @st.composite
-def ldap_cellalloc_value(draw):
+def ldap_cellalloc_value(draw, multi=False):
+    # one object in four has lists with repeated values
+    lst = _mlist if multi and draw(_ints(0, 3)) == 0 else _ulist
     obj = {}
     _maybe(draw, obj, 'cpu', _cpu())
     _maybe(draw, obj, 'memory', _size())
@@ -1511,7 +1553,7 @@ def ldap_cellalloc_value(draw):
     _maybe(draw, obj, 'max_utilization', _max_util())
     _maybe(draw, obj, 'rank', _ints(0, 100))
     _maybe(draw, obj, 'rank_adjustment', _ints(0, 100))
-    _maybe(draw, obj, 'traits', _ulist(_txt(WORD_DASH, 1, 6)))
+    _maybe(draw, obj, 'traits', lst(_txt(WORD_DASH, 1, 6)))
     _maybe(draw, obj, 'partition', _one_of(
         _just('_default'), _txt(WORD_DASH, 1, 8)))
     if draw(_ints(0, 9)) > 2:
@@ -1529,14 +1571,16 @@ def ldap_cellalloc_value(draw):
 
 @cached
 @st.composite
-def ldap_partition_value(draw):
+def ldap_partition_value(draw, multi=False):
+    # one object in four has lists with repeated values
+    lst = _mlist if multi and draw(_ints(0, 3)) == 0 else _ulist
     obj = {}
     if draw(_ints(0, 3)) == 0:
         obj['_id'] = draw(_txt(WORD_DASH, 1, 8))
     _maybe(draw, obj, 'cpu', _cpu())
     _maybe(draw, obj, 'memory', _size())
     _maybe(draw, obj, 'disk', _size())
-    _maybe(draw, obj, 'systems', _ulist(_ints(0, 10 ** 6), 0, 4))
+    _maybe(draw, obj, 'systems', lst(_ints(0, 10 ** 6), 0, 4))
     _maybe(draw, obj, 'down-threshold', _ints(0, 1000))
     _maybe(draw, obj, 'reboot-schedule', _pick(
         'sat,sun/02:00', 'mon/00:00:00', 'tue,thu'))
@@ -1556,13 +1600,63 @@ def ldap_partition_value(draw):
     }
 
 
-def _ldap_pair(draw, strat, inner=None):
+def _scalar_lists(obj, path=()):
+    """Paths of the non-empty lists of scalars inside ``obj`` (plain list
+    attributes, vring cells, the endpoints of every vring rule, ...)."""
+    found = []
+    if isinstance(obj, dict):
+        for key in sorted(obj):
+            found.extend(_scalar_lists(obj[key], path + (key,)))
+    elif isinstance(obj, list) and obj:
+        if all(not isinstance(item, (dict, list)) for item in obj):
+            found.append(path)
+        else:
+            for idx, item in enumerate(obj):
+                found.extend(_scalar_lists(item, path + (idx,)))
+    return found
+
+
+def _list_variant(draw, obj):
+    """A copy of ``obj`` in which ONE list of scalars differs only in the
+    multiplicity or the order of its values: one value once more, one
+    occurrence less, two different values swapped.  The two objects are
+    different, so their encodings have to be."""
+    out = copy.deepcopy(obj)
+    paths = _scalar_lists(out)
+    if not paths:
+        return out
+    target = out
+    for step in paths[draw(_ints(0, len(paths) - 1))]:
+        target = target[step]
+    src = draw(_ints(0, len(target) - 1))
+    pos = draw(_ints(0, len(target)))
+    oper = draw(_pick('dup', 'dup', 'drop', 'swap'))
+    if oper == 'swap' and pos < len(target) and target[pos] != target[src]:
+        target[src], target[pos] = target[pos], target[src]
+    elif oper == 'drop' and len(target) > 1:
+        del target[src]
+    else:
+        target.insert(pos, target[src])
+    return out
+
+
+def _ldap_pair(draw, strat, inner=None, listvar=False):
     first = draw(strat)
-    mode = draw(_pick('mix', 'mix', 'same', 'indep', 'none'))
+    modes = ('mix', 'mix', 'same', 'indep', 'none')
+    if listvar:
+        modes += ('listvar',)
+    mode = draw(_pick(*modes))
     if mode == 'none':
         return first, None
     if mode == 'same':
         return first, copy.deepcopy(first)
+    if mode == 'listvar':
+        second = copy.deepcopy(first)
+        if inner:
+            second[inner] = _list_variant(draw, first[inner])
+        else:
+            second = _list_variant(draw, first)
+        return first, second
     second = draw(strat)
     if mode == 'mix':
         src_a = first[inner] if inner else first
@@ -1583,7 +1677,7 @@ def _ldap_pair(draw, strat, inner=None):
 @cached
 @st.composite
 def ldap_app_case(draw):
-    first, second = _ldap_pair(draw, ldap_app_value())
+    first, second = _ldap_pair(draw, ldap_app_value(True), listvar=True)
     return {'codec': 'ldap_app',
             'via': draw(_pick('direct', 'server')),
             'a': first, 'b': second}
@@ -1592,7 +1686,8 @@ def ldap_app_case(draw):
 @cached
 @st.composite
 def ldap_cellalloc_case(draw):
-    first, second = _ldap_pair(draw, ldap_cellalloc_value(), 'obj')
+    first, second = _ldap_pair(draw, ldap_cellalloc_value(True), 'obj',
+                               listvar=True)
     return {'codec': 'ldap_cellalloc',
             'via': draw(_pick('direct', 'server')),
             'a': first, 'b': second}
@@ -1601,7 +1696,8 @@ def ldap_cellalloc_case(draw):
 @cached
 @st.composite
 def ldap_partition_case(draw):
-    first, second = _ldap_pair(draw, ldap_partition_value(), 'obj')
+    first, second = _ldap_pair(draw, ldap_partition_value(True), 'obj',
+                               listvar=True)
     return {'codec': 'ldap_partition',
             'via': draw(_pick('direct', 'server')),
             'a': first, 'b': second}
@@ -1725,7 +1821,23 @@ def _ldap_roundtrip(kind, obj, via, dn=None):
     return entry, ldap_obj.from_entry(copy.deepcopy(stored), dn)
 
 
-def _ldap_flags(obj, flags):
+def _collapsed(obj):
+    """``obj`` with every list of scalars reduced to the first occurrence of
+    each of its values (order kept)."""
+    if isinstance(obj, dict):
+        return {key: _collapsed(value) for key, value in obj.items()}
+    if isinstance(obj, list):
+        if any(isinstance(item, (dict, list)) for item in obj):
+            return [_collapsed(item) for item in obj]
+        out = []
+        for item in obj:
+            if not any(same(item, seen) for seen in out):
+                out.append(item)
+        return out
+    return obj
+
+
+def _ldap_flags(obj, flags, depth=0):
     for key, value in obj.items():
         if value is None:
             flags.add('none-field')
@@ -1734,11 +1846,16 @@ def _ldap_flags(obj, flags):
         elif isinstance(value, list):
             if len(value) >= 17:
                 flags.add('17plus-indexed')
+            if len(_collapsed(value)) < len(value):
+                flags.add('repeated-value')
+                if depth:
+                    # vring cells / endpoints of an option-indexed vring rule
+                    flags.add('repeated-value-nested')
             for item in value:
                 if isinstance(item, dict):
-                    _ldap_flags(item, flags)
+                    _ldap_flags(item, flags, depth + 1)
         elif isinstance(value, dict):
-            _ldap_flags(value, flags)
+            _ldap_flags(value, flags, depth + 1)
     return flags
 
 
@@ -1782,8 +1899,14 @@ def _check_ldap(case, stats, kind):
         if not same(got, want):
             diff = sorted(k for k in set(got) | set(want)
                           if not same(got.get(k), want.get(k)))
+            # the field differs in nothing but how often a value occurs
+            # in one of its lists: multiset read back as another multiset
+            what = diff[0].replace('_', '-')
+            if same(_collapsed(got.get(diff[0])),
+                    _collapsed(want.get(diff[0]))):
+                what += '.multiplicity'
             raise Violation(
-                'c15.%s.roundtrip.%s' % (tag, diff[0].replace('_', '-')),
+                'c15.%s.roundtrip.%s' % (tag, what),
                 '%s %s -> entry -> %s (differs in %s, via %s)' %
                 (kind, _short(obj, 500), _short(back, 500), diff,
                  case['via']))
@@ -1806,9 +1929,13 @@ def _check_ldap(case, stats, kind):
     if len(vals) == 2:
         if not same(normed[0], normed[1]):
             stats.count(tag + ':pair-distinct')
+            only_count = same(_collapsed(normed[0]), _collapsed(normed[1]))
+            if only_count:
+                stats.count(tag + ':pair-multiplicity-only')
             if server_normalise(entries[0]) == server_normalise(entries[1]):
                 raise Violation(
-                    'c15.%s.collision' % tag,
+                    'c15.%s.collision%s' % (
+                        tag, '.multiplicity' if only_count else ''),
                     'distinct objects %s and %s are stored as the same '
                     'entry' % (_short(normed[0], 400),
                                _short(normed[1], 400)))
